@@ -3,6 +3,7 @@ package engine
 import (
 	"fmt"
 	"go/ast"
+	"os"
 	"go/types"
 	"sort"
 	"strings"
@@ -57,6 +58,11 @@ func (e *fnEnc) runTop() {
 		e.cur[k] = vc.decl("H0!"+k, vc.keys[k].Sort)
 	}
 	vc.assume(fmt.Sprintf("(>= %s 0)", e.heap(clockKey)))
+	if e.contract != nil {
+		for site := range e.contract.HitSites {
+			vc.assume(sEq(e.heap(hitsKey(site)), "0"))
+		}
+	}
 	// parameters
 	var ptrParams []string
 	for _, p := range e.fn.Params {
@@ -353,6 +359,19 @@ func (e *fnEnc) loopEnv(li *loopInfo, from *ssa.BasicBlock, heap map[string]stri
 			return tv, true
 		}
 		return e.freeVarByName(name, e.entryHeap)
+	}
+	// the loop's own iterator: a Next inside the loop whose Range was created outside it
+	for b := range li.body {
+		for _, in := range b.Instrs {
+			if nx, ok := in.(*ssa.Next); ok {
+				if rng, ok := nx.Iter.(*ssa.Range); ok && !li.body[rng.Block()] {
+					env.iterKey = "ITER!" + e.prefix + rng.Name()
+				}
+			}
+		}
+	}
+	if os.Getenv("LHV_DEBUG") != "" {
+		fmt.Fprintf(os.Stderr, "loopEnv ord=%d head=%d body=%d iterKey=%q\n", li.ordinal, li.head.Index, len(li.body), env.iterKey)
 	}
 	return env
 }
